@@ -147,11 +147,7 @@ type posted struct {
 	bodies map[string][]byte
 }
 
-type fileSpec struct {
-	id     Ident
-	omit   int
-	counts []KV
-}
+type fileSpec = FileSpec
 
 // a scenario: configuration, X numerator, files; the rest is drawn in runScenario
 type scenario struct {
@@ -166,6 +162,14 @@ func genScenario() scenario {
 	var s scenario
 	s.m = GenX(rnd)
 	x := XOf(s.m)
+	if rnd.Chance(8) {
+		// two different programs with the same base name, version and platform, one of them approved
+		BigValues = false
+		cfg, files := GenSameBaseWeek(rnd, x)
+		s.ucfg, s.files, s.nb = cfg, files, 2
+		out.Note("same-base-week")
+		return s
+	}
 	if rnd.Chance(25) {
 		// several programs recording items of the same names, approved differently per program
 		BigValues = false
@@ -173,7 +177,7 @@ func genScenario() scenario {
 		s.ucfg = cfg
 		progs := map[string]bool{}
 		for _, f := range files {
-			s.files = append(s.files, fileSpec{id: f.ID, omit: f.Omit, counts: f.Counts})
+			s.files = append(s.files, f)
 			progs[f.ID.Program] = true
 		}
 		s.nb = len(progs)
@@ -214,9 +218,9 @@ func genScenario() scenario {
 		if rnd.Chance(10) {
 			maxn = 0
 		}
-		fs := fileSpec{id: b, counts: GenCounts(rnd, s.ucfg, b.Program, maxn)}
+		fs := fileSpec{ID: b, Counts: GenCounts(rnd, s.ucfg, b.Program, maxn)}
 		if rnd.Chance(4) {
-			fs.omit = 1 + rnd.Intn(5)
+			fs.Omit = 1 + rnd.Intn(5)
 			out.Note("meta-line-omitted")
 		}
 		s.files = append(s.files, fs)
@@ -236,14 +240,14 @@ func approvedCfg(counters, stacks []telemetry.CounterConfig) (*telemetry.UploadC
 func witnessRate() scenario {
 	cfg, id := approvedCfg([]telemetry.CounterConfig{{Name: "foo", Rate: 0}}, []telemetry.CounterConfig{{Name: "foo", Rate: 1}})
 	out.Note("witness-shared-rate-table")
-	return scenario{ucfg: cfg, m: 1 << 51, nb: 1, force: true, files: []fileSpec{{id: id, counts: []KV{{"foo", 3}}}}}
+	return scenario{ucfg: cfg, m: 1 << 51, nb: 1, force: true, files: []fileSpec{{ID: id, Counts: []KV{{"foo", 3}}}}}
 }
 
 // known finding 14: value 2^63
 func witnessValue() scenario {
 	cfg, id := approvedCfg([]telemetry.CounterConfig{{Name: "foo", Rate: 1}}, nil)
 	out.Note("witness-value-2^63")
-	return scenario{ucfg: cfg, m: 1 << 51, nb: 1, force: true, files: []fileSpec{{id: id, counts: []KV{{"foo", 1 << 63}}}}}
+	return scenario{ucfg: cfg, m: 1 << 51, nb: 1, force: true, files: []fileSpec{{ID: id, Counts: []KV{{"foo", 1 << 63}}}}}
 }
 
 func caseReport(post bool, s scenario) {
@@ -297,9 +301,13 @@ func caseReport(post bool, s scenario) {
 	f = append(f, WConfig(ucfg)...)
 	f = append(f, HS(cfgVersion), HS(week), HS(lastWeek), I(int64(nf)))
 	anyCounts := false
-	for i, fs := range s.files {
-		data := EncodeCountFile(MetaString(begin.Format(time.RFC3339), end.Format(time.RFC3339), fs.id, fs.omit), fs.counts)
-		name := filepath.Join(tdir.LocalDir(), fmt.Sprintf("%02d-prog.v1.count", i))
+	realistic := rnd.Bool()
+	if realistic {
+		out.Note("rotate1-file-names")
+	}
+	for _, fs := range PlaceFiles(rnd, s.files, begin, end, realistic) {
+		data := EncodeCountFile(MetaString(fs.Begin.Format(time.RFC3339), end.Format(time.RFC3339), fs.ID, fs.Omit), fs.Counts)
+		name := filepath.Join(tdir.LocalDir(), fs.Name)
 		if err := os.WriteFile(name, data, 0666); err != nil {
 			panic(err)
 		}
@@ -307,7 +315,7 @@ func caseReport(post bool, s scenario) {
 		if err != nil {
 			panic(fmt.Sprintf("the real parser rejects a generated counter file: %v", err))
 		}
-		if len(pf.Count) != len(fs.counts) {
+		if len(pf.Count) != len(fs.Counts) {
 			panic("the real parser lost counters of a generated file")
 		}
 		if len(pf.Count) > 0 {
@@ -455,11 +463,11 @@ func observe(tdir telemetry.Dir, week string) []string {
 
 // writeWeek (re)writes the count files 00.., and returns the wire fields of
 // the directory's count files as the real parser reads them NOW: name, TimeEnd, parsed file.
-func writeWeek(tdir telemetry.Dir, begin, end time.Time, files []fileSpec) []string {
+func writeWeek(tdir telemetry.Dir, end time.Time, files []fileSpec) []string {
 	f := []string{I(int64(len(files)))}
-	for i, fs := range files {
-		data := EncodeCountFile(MetaString(begin.Format(time.RFC3339), end.Format(time.RFC3339), fs.id, fs.omit), fs.counts)
-		base := fmt.Sprintf("%02d-prog.v1.count", i)
+	for _, fs := range files {
+		data := EncodeCountFile(MetaString(fs.Begin.Format(time.RFC3339), end.Format(time.RFC3339), fs.ID, fs.Omit), fs.Counts)
+		base := fs.Name
 		name := filepath.Join(tdir.LocalDir(), base)
 		if err := os.WriteFile(name, data, 0666); err != nil {
 			panic(err)
@@ -478,23 +486,23 @@ func writeWeek(tdir telemetry.Dir, begin, end time.Time, files []fileSpec) []str
 func grow(files []fileSpec, ucfg *telemetry.UploadConfig) []fileSpec {
 	var res []fileSpec
 	for _, fs := range files {
-		n := fileSpec{id: fs.id, omit: fs.omit}
+		n := fileSpec{ID: fs.ID, Omit: fs.Omit, Name: fs.Name, Begin: fs.Begin}
 		seen := map[string]bool{}
-		for _, kv := range fs.counts {
+		for _, kv := range fs.Counts {
 			seen[kv.K] = true
-			n.counts = append(n.counts, KV{kv.K, kv.V + uint64(rnd.Intn(20))})
+			n.Counts = append(n.Counts, KV{kv.K, kv.V + uint64(rnd.Intn(20))})
 		}
-		for _, kv := range GenCounts(rnd, ucfg, fs.id.Program, 4) {
+		for _, kv := range GenCounts(rnd, ucfg, fs.ID.Program, 4) {
 			if !seen[kv.K] {
 				seen[kv.K] = true
-				n.counts = append(n.counts, kv)
+				n.Counts = append(n.Counts, kv)
 			}
 		}
 		res = append(res, n)
 	}
 	if rnd.Chance(30) {
-		id := Pick(rnd, files).id
-		res = append(res, fileSpec{id: id, counts: GenCounts(rnd, ucfg, id.Program, 5)})
+		id := Pick(rnd, files).ID
+		res = append(res, fileSpec{ID: id, Counts: GenCounts(rnd, ucfg, id.Program, 5)})
 	}
 	return res
 }
@@ -527,26 +535,32 @@ func caseSeq() {
 	type step struct {
 		begin, end, start time.Time
 		files             []fileSpec
+		clear             bool // count files left over from the previous step are removed first
 	}
 	var steps []step
 	after := func(e time.Time) time.Time { return e.Add(time.Duration(1+rnd.Intn(15*24*3600)) * time.Second) }
-	files := s.files
+	realistic := rnd.Bool()
+	files := PlaceFiles(rnd, s.files, begin, end, realistic)
 	if rnd.Chance(60) {
-		// (a) active, [active again,] expired
-		steps = append(steps, step{begin, end, begin.Add(time.Duration(rnd.Intn(7*24*3600)) * time.Second), files})
+		// (a) active, [active again,] expired: the same files (same names) grow
+		steps = append(steps, step{begin, end, begin.Add(time.Duration(rnd.Intn(7*24*3600)) * time.Second), files, false})
 		if rnd.Chance(30) {
-			files = grow(files, ucfg)
-			steps = append(steps, step{begin, end, end.Add(-time.Duration(rnd.Intn(3600)) * time.Second), files})
+			files = PlaceFiles(rnd, grow(files, ucfg), begin, end, realistic)
+			steps = append(steps, step{begin, end, end.Add(-time.Duration(rnd.Intn(3600)) * time.Second), files, false})
 		}
-		files = grow(files, ucfg)
-		steps = append(steps, step{begin, end, after(end), files})
+		files = PlaceFiles(rnd, grow(files, ucfg), begin, end, realistic)
+		steps = append(steps, step{begin, end, after(end), files, false})
 		out.Note("seq-active-then-expired")
 	} else {
-		// (b) consumed, next week under the same names
-		steps = append(steps, step{begin, end, after(end), files})
+		// (b) consumed, then the next week (neutral names: the same names again; rotate1 names: new dates)
+		steps = append(steps, step{begin, end, after(end), files, false})
 		end2 := end.AddDate(0, 0, 7)
-		files = grow(files, ucfg)
-		steps = append(steps, step{end, end2, after(end2), files})
+		next := grow(files, ucfg)
+		for i := range next {
+			next[i].Name = ""
+		}
+		files = PlaceFiles(rnd, next, end, end2, realistic)
+		steps = append(steps, step{end, end2, after(end2), files, true})
 		out.Note("seq-consumed-then-next-week")
 	}
 	f := []string{"seq"}
@@ -555,8 +569,17 @@ func caseSeq() {
 	for _, st := range steps {
 		m := GenX(rnd)
 		week := st.end.Format("2006-01-02")
+		if st.clear {
+			// a week without counters leaves its files behind; the user clears them
+			ents, _ := os.ReadDir(tdir.LocalDir())
+			for _, e := range ents {
+				if strings.HasSuffix(e.Name(), ".v1.count") {
+					os.Remove(filepath.Join(tdir.LocalDir(), e.Name()))
+				}
+			}
+		}
 		f = append(f, I(st.start.Unix()), HS(week), HS(""), U(bitsOf(XOf(m))))
-		f = append(f, writeWeek(tdir, st.begin, st.end, st.files)...)
+		f = append(f, writeWeek(tdir, st.end, st.files)...)
 		crand.Reader = &CycleReader{Data: append(RandBytesFor(rnd, m), RandBytesFor(rnd, m^(1<<uint(rnd.Intn(52))))...)}
 		u := upload.VerifNewUploader(dir, "http://127.0.0.1:1", st.start, ucfg, cfgVersion, nil)
 		if _, err := u.Reports(); err != nil {
